@@ -78,7 +78,7 @@ def selector(case, l, kind):
     raise ValueError(kind)
 
 
-def rhs_array(case, region, variant):
+def rhs_array(case, region, variant, dropped=()):
     """an array over the region's dimensions (permuted; optionally with a surplus dimension that
     must be summed away, or lacking one dimension -> refusal)"""
     r = case.r
@@ -86,6 +86,15 @@ def rhs_array(case, region, variant):
     r.shuffle(dims)
     if variant == "surplus":
         dims.insert(r.randint(0, len(dims)), ("z", "zz", "s", ["sk", "sl"]))
+    if variant == "surplus_own":
+        # the source still carries a dimension of the target that the key fixes to one item:
+        # it is a dimension the region does not have, so it must be summed over
+        if dropped:
+            l = r.choice(list(dropped))
+            n, ty, its = DIMS[l]
+            dims.insert(r.randint(0, len(dims)), (l, n, ty, its))
+        else:
+            dims.insert(r.randint(0, len(dims)), ("z", "zz", "s", ["sk", "sl"]))
     if variant == "missing" and dims:
         dims.pop(r.randrange(len(dims)))
     hs = []
@@ -143,7 +152,8 @@ def gen_index(tier, seed):
             key = "K:" + ";".join(kv)
             lines.append(f"getitem ${case.new()} $20 {key}"); stats["reads"] += 1
             # writes on a fresh copy each
-            for variant in r.sample(["num", "arr", "surplus", "missing", "nd"], 2):
+            dropped = [l for l, kind in zip(order, combo) if kind == "single"]
+            for variant in r.sample(["num", "arr", "surplus", "surplus_own", "missing", "nd", "ndvar"], 3):
                 t = case.new()
                 lines.append(f"copy ${t} $20")
                 if variant == "num":
@@ -174,8 +184,21 @@ def gen_index(tier, seed):
                         cnt *= s
                     st = "-" if not shp2 else ",".join(map(str, shp2))
                     lines.append(f"setitem ${t} {key} nd:{st}:{vals(r, cnt).replace(' ', ',')}")
+                elif variant == "ndvar":
+                    # whole-array assignment of an ndarray *object*, which is modified afterwards:
+                    # the target must not follow (the assigned ndarray is copied)
+                    full = [DIMS[l][2] for l in order]
+                    vh = case.new()
+                    lines.append(f"nd ${vh} {shape_of(full)} {vals(r, size_of(full))}")
+                    lines.append(f"setitem ${t} E ${vh}")
+                    lines.append(f"ndwrite ${vh} {r.randrange(max(1, size_of(full)))} 99")
+                    lines.append(f"dump ${t}")
+                    t2 = case.new()
+                    lines.append(f"copy ${t2} $20")
+                    lines.append(f"setitem ${t2} {key} n:1")
+                    lines.append(f"dump ${t}")
                 else:
-                    ah = rhs_array(case, region, variant)
+                    ah = rhs_array(case, region, variant, dropped)
                     lines.append(f"setitem ${t} {key} ${ah}")
                 stats["writes"] += 1
         # other key syntaxes on the same array
